@@ -143,7 +143,7 @@ def main(tier, only=None):
     addr_opts = {"listen": "127.0.0.1:8081", "host": "127.0.0.1", "port": "8082", "sockets": [s_inet], "unix_socket": "/nonexistent/verif.sock"}
     proxy_opts = []
     for tp in (None, "10.0.0.1", "*", ""):
-        for cnt in (None, 1, "2"):
+        for cnt in (None, 1, "2", 0, "0"):
             for tph in (None, [], "", ["forwarded"], ["x-forwarded-for"], "x-forwarded-for x-forwarded-host", ["forwarded", "x-forwarded-for"], ["bogus"], ["X-Forwarded-Proto"], "Forwarded",
                         ["Forwarded", "X-Forwarded-For"], "FORWARDED x-forwarded-host", ["x-forwarded-by", "forwardeD"], ["Bogus"]):
                 for clear in (None, True, "false"):
@@ -318,6 +318,7 @@ def main(tier, only=None):
     # -- 4. socket lists ------------------------------------------------------
     kinds = {
         "inet": lambda: socket.socket(socket.AF_INET, socket.SOCK_STREAM),
+        "inet6": lambda: socket.socket(socket.AF_INET6, socket.SOCK_STREAM),
         "unix": lambda: socket.socket(socket.AF_UNIX, socket.SOCK_STREAM),
         "dgram": lambda: socket.socket(socket.AF_INET, socket.SOCK_DGRAM),
         "seqpacket": lambda: socket.socket(socket.AF_UNIX, socket.SOCK_SEQPACKET),
@@ -330,7 +331,7 @@ def main(tier, only=None):
             try:
                 n += 1
                 real = [k for k in combo if k != "nonsock"]
-                want_err = any(k in real for k in ("dgram", "seqpacket", "unix-dgram")) or ("inet" in real and "unix" in real)
+                want_err = any(k in real for k in ("dgram", "seqpacket", "unix-dgram")) or (("inet" in real or "inet6" in real) and "unix" in real)
                 adj, err = make(Adjustments, {"sockets": objs})
                 classes.add(("sockets", tuple(combo), err is None))
                 if want_err and err is None:
